@@ -126,61 +126,68 @@ func checkC08(p *Prog, r *Report) {
 	}{{"encrypt", "encrypt8", "encrypt16"}, {"decrypt", "decrypt8", "decrypt16"}} {
 		fi := p.FuncByName(spec.name)
 		ok := false
-		why := "no switch on block.BlockSize()"
-		ast.Inspect(fi.Body, func(n ast.Node) bool {
-			sw, isSw := n.(*ast.SwitchStmt)
-			if !isSw || sw.Tag == nil {
-				return true
-			}
-			t := p.Term(sw.Tag)
-			if !(t.Op == "call" && t.Obj != nil && t.Obj.Name() == "BlockSize") {
-				return true
-			}
+		why := ""
+		{
+			c := p.CFG(fi)
 			arms := map[int64]string{}
-			def := false
-			for _, st := range sw.Body.List {
-				cc := st.(*ast.CaseClause)
-				if cc.List == nil {
-					for _, s := range cc.Body {
-						if es, isE := s.(*ast.ExprStmt); isE {
-							if call, isC := es.X.(*ast.CallExpr); isC && p.BuiltinName(call) == "panic" {
-								def = true
-							}
-						}
-					}
-					continue
+			isBS := func(t *Term) bool { return t.Op == "call" && t.Obj != nil && t.Obj.Name() == "BlockSize" }
+			okArgs := true
+			ast.Inspect(fi.Body, func(n ast.Node) bool {
+				call, isC := n.(*ast.CallExpr)
+				if !isC {
+					return true
 				}
-				for _, e := range cc.List {
-					v, _ := p.constVal(e)
-					callee := ""
-					params := true
-					for _, s := range cc.Body {
-						if es, isE := s.(*ast.ExprStmt); isE {
-							if call, isC := es.X.(*ast.CallExpr); isC {
-								if f := p.Callee(call); f != nil {
-									callee = f.Name()
-									// the arguments are passed through in order
-									for i, a := range call.Args {
-										id, isId := a.(*ast.Ident)
-										if !isId || i >= fi.Obj.Type().(*types.Signature).Params().Len() || p.Info.Uses[id] != fi.paramObj(p, i) {
-											params = false
-										}
-									}
+				f := p.Callee(call)
+				if f == nil || f.Pkg() != p.Types || (f.Name() != spec.f8 && f.Name() != spec.f16) {
+					return true
+				}
+				// the arguments are passed through in order
+				for i, a := range call.Args {
+					id, isId := a.(*ast.Ident)
+					if !isId || p.Info.Uses[id] != fi.paramObj(p, i) {
+						okArgs = false
+					}
+				}
+				pt, _ := c.PointOf(call)
+				for _, ct := range c.DominatingConds(pt) {
+					for _, a := range Conjuncts(ct) {
+						a = p.resolveSingleDefs(fi, a)
+						if a.Op == "==" && len(a.Args) == 2 {
+							for i := 0; i < 2; i++ {
+								if a.Args[i].IsConst() && isBS(a.Args[1-i]) {
+									arms[a.Args[i].Int] = f.Name()
 								}
 							}
 						}
 					}
-					if params {
-						arms[v] = callee
-					} else {
-						arms[v] = callee + " (arguments permuted)"
+				}
+				return true
+			})
+			// anything else panics: a panic call that is not under either equality
+			def := false
+			ast.Inspect(fi.Body, func(n ast.Node) bool {
+				call, isC := n.(*ast.CallExpr)
+				if !isC || p.BuiltinName(call) != "panic" {
+					return true
+				}
+				pt, _ := c.PointOf(call)
+				under := false
+				for _, ct := range c.DominatingConds(pt) {
+					for _, a := range Conjuncts(ct) {
+						a = p.resolveSingleDefs(fi, a)
+						if a.Op == "==" && len(a.Args) == 2 && ((a.Args[0].IsConst() && isBS(a.Args[1])) || (a.Args[1].IsConst() && isBS(a.Args[0]))) {
+							under = true
+						}
 					}
 				}
-			}
-			ok = arms[8] == spec.f8 && arms[16] == spec.f16 && len(arms) == 2 && def
-			why = fmt.Sprintf("arms %v, default panics: %v", arms, def)
-			return true
-		})
+				if !under {
+					def = true
+				}
+				return true
+			})
+			ok = arms[8] == spec.f8 && arms[16] == spec.f16 && len(arms) == 2 && def && okArgs
+			why = fmt.Sprintf("arms %v, anything else panics: %v, arguments passed through: %v", arms, def, okArgs)
+		}
 		r.check(ok, "C08.K5", fi.Name, p.Pos(fi.Node), "dispatch by block size", "8 -> "+spec.f8+", 16 -> "+spec.f16+", otherwise panic", why+": a cipher is processed with the wrong block width (garbage, not CFB)")
 	}
 	{
@@ -442,7 +449,19 @@ func checkC08(p *Prog, r *Report) {
 
 func (fi *FuncInfo) paramObj(p *Prog, i int) types.Object {
 	k := 0
-	for _, fl := range fi.Decl.Type.Params.List {
+	var ft *ast.FuncType
+	switch {
+	case fi.Decl != nil:
+		ft = fi.Decl.Type
+	case fi.Lit != nil:
+		ft = fi.Lit.Type
+	default:
+		return nil
+	}
+	if ft.Params == nil {
+		return nil
+	}
+	for _, fl := range ft.Params.List {
 		for _, nm := range fl.Names {
 			if k == i {
 				return p.Info.Defs[nm]
